@@ -76,6 +76,10 @@ type opIn struct {
 	Addr string `json:"addr,omitempty"` // hex
 	// poll: a registration of Rec by node (n+1) mod nodes happens Delay ms after the polling lookup started
 	Delay int64 `json:"delay,omitempty"`
+	// the shared tier (miniredis) fails every command for the duration of THIS call only
+	Fault bool `json:"fault,omitempty"`
+	// forward stream: "addr" registers listener K as the node's address, "fwd" forwards a fresh tunnel
+	K int `json:"k,omitempty"`
 }
 
 type caseIn struct {
@@ -114,6 +118,7 @@ type opOut struct {
 	Rec  *recOut `json:"rec,omitempty"` // reg: the caller's struct after the call ; look: the returned record
 	Addr string  `json:"addr,omitempty"`
 	Amb  bool    `json:"amb,omitempty"` // the reference could not classify this step from the measured times
+	Flt  bool    `json:"fault,omitempty"` // the shared tier failed during this call
 	Err  string  `json:"err,omitempty"` // diagnostic only
 }
 
@@ -278,6 +283,7 @@ func newWorld(c caseIn) *world {
 const epsNs = int64(5 * time.Millisecond) // guard band around a deadline (wall vs monotonic clock readings)
 
 type regInfo struct {
+	remFault bool // RemoveWaitingTunnel ran while the shared tier failed: the delete did not happen
 	st      tunnel.WaitingState // copy of the caller's struct right after RegisterWaitingTunnel
 	in      tunnel.WaitingState // copy of the caller's struct right before
 	node    int
@@ -369,6 +375,11 @@ func runCase(c caseIn) *caseOut {
 			node = 0
 		}
 		rt := w.tables[node]
+		faulted := o.Fault && w.mr != nil
+		if faulted {
+			w.mr.SetError("ERR verif injected outage")
+			oo.Flt = true
+		}
 		switch o.Op {
 		case "sleep":
 			oo.T0 = since()
@@ -391,10 +402,16 @@ func runCase(c caseIn) *caseOut {
 			oo.T0 = since()
 			err := rt.RegisterWaitingTunnel(context.Background(), st)
 			oo.T1 = since()
+			if faulted {
+				w.mr.SetError("")
+			}
 			if err != nil {
 				oo.Res, oo.Err = "err", err.Error()
 				if st.TunnelID == "" {
 					oo.Res = "invalid"
+				} else if faulted {
+					// the failed write is REPORTED: nothing was registered, whatever was there before stays
+					oo.Res = "fault"
 				} else {
 					fail(i, "register-failed", fmt.Sprintf("op #%d RegisterWaitingTunnel(%s) on %s failed: %v", i, short(st.TunnelID), c.Backend, err))
 				}
@@ -430,7 +447,11 @@ func runCase(c caseIn) *caseOut {
 			case err == nil && tid != "":
 				oo.Res = "ok"
 				if ri := cur[ck(node, tid)]; ri != nil {
-					ri.removed = true
+					if faulted {
+						ri.remFault = true // the Delete failed and RemoveWaitingTunnel swallowed the error
+					} else {
+						ri.removed = true
+					}
 				}
 			case err != nil && tid == "":
 				oo.Res = "invalid"
@@ -516,6 +537,17 @@ func runCase(c caseIn) *caseOut {
 				}
 				break
 			}
+			if faulted && oo.Res == "err" {
+				break // the failed read is reported as a storage error: no routing decision was made
+			}
+			if ri != nil && ri.remFault && !ri.removed {
+				// the tunnel ended while the shared tier failed: RemoveWaitingTunnel swallowed the failed Delete
+				out.Judged++
+				if oo.Res == "ok" {
+					fail(i, "remove-storage-fault-swallowed", fmt.Sprintf("op #%d on %s: RemoveWaitingTunnel(%s) ran while the shared tier failed, returned nil, and the id still resolves from node %d to %q (ExpiresAt in %v)", i, c.Backend, short(tid), node, got.SourceNodeID, time.Duration(ri.expires-oo.T1)))
+				}
+				break
+			}
 			// ---- the property's predicate
 			gone := ri == nil || ri.removed
 			var mustOK, mustGone bool
@@ -581,6 +613,10 @@ func runCase(c caseIn) *caseOut {
 			oo.T0 = since()
 			err := rt.RegisterNodeAddress(id, addr)
 			oo.T1 = since()
+			if err != nil && faulted {
+				oo.Res, oo.Err = "fault", err.Error()
+				break
+			}
 			if err != nil {
 				oo.Res, oo.Err = "err", err.Error()
 				fail(i, "regaddr-failed", fmt.Sprintf("op #%d RegisterNodeAddress(%s,%s) failed: %v", i, short(id), short(addr), err))
@@ -610,6 +646,9 @@ func runCase(c caseIn) *caseOut {
 				oo.Res = "notfound"
 			default:
 				oo.Res, oo.Err = "bad", err.Error()
+			}
+			if faulted && oo.Res != "ok" {
+				break
 			}
 			ai := addrs[ck(node, id)]
 			known := ai != nil
@@ -647,6 +686,9 @@ func runCase(c caseIn) *caseOut {
 			}
 		default:
 			panic("unknown op " + o.Op)
+		}
+		if faulted {
+			w.mr.SetError("")
 		}
 		out.Obs = append(out.Obs, oo)
 	}
@@ -1164,6 +1206,159 @@ func runSweep(c caseIn) *concOut {
 }
 
 // ---------------------------------------------------------------------------------------------
+// forward: the LAST hop of "resolves to the correct source node".  Node B is a real SessionManager with the routing table
+// and a TunnelConnectionManager wired exactly as components_session.go wires them (getNodeAddr = RoutingTable.GetNodeAddress).
+// Node A's address is one of several REAL listeners that are all alive; ops: "addr" k = RegisterNodeAddress(node-a, listener k),
+// "fwd" = a fresh tunnel waits on node A and a target connection for it arrives on B, which runs the REAL
+// handleCrossNodeTargetConnection (polling lookup, processCrossNodeForward, forwardToSourceNode: resolve, dial, TargetReady),
+// "ff" = backend time passes.  Predicate: the TargetReady frame of every forwarded tunnel arrives at the listener whose
+// address is registered for the source node AT THAT MOMENT; with no (unexpired) address the forward fails and nothing is dialled.
+// ---------------------------------------------------------------------------------------------
+
+type fwdHit struct {
+	listener int
+	tunnel   string
+	from     string
+}
+
+type forwardOut struct {
+	Stream  string   `json:"stream"`
+	Backend string   `json:"backend"`
+	PropOK  bool     `json:"prop_ok"`
+	PropKey string   `json:"prop_key,omitempty"`
+	PropMsg string   `json:"prop_msg,omitempty"`
+	FailAt  int      `json:"fail_at"`
+	Events  []string `json:"events"`
+	Obs     []opOut  `json:"obs"`
+	Judged  int      `json:"judged"`
+	Amb     int      `json:"ambiguous"`
+	Dials   []int    `json:"dials"` // per "fwd" op: the listener that received the tunnel's TargetReady (-1: none)
+	Want    []int    `json:"want"`  // per "fwd" op: the listener currently registered (-1: none)
+}
+
+func runForward(c caseIn) *forwardOut {
+	out := &forwardOut{Stream: "forward", Backend: c.Backend, PropOK: true, FailAt: -1, Obs: []opOut{}, Events: []string{}}
+	fail := func(i int, key, msg string) {
+		if out.PropOK {
+			out.PropOK, out.PropKey, out.PropMsg, out.FailAt = false, key, msg, i
+		}
+	}
+	c.Nodes = 2
+	w := newWorld(c)
+	defer w.close()
+	bg := context.Background()
+	ctxB, cancelB := context.WithCancel(bg)
+	defer cancelB()
+	// listeners standing for the addresses node-a has had; every one stays alive
+	hits := make(chan fwdHit, 64)
+	var listeners []net.Listener
+	for k := 0; k < 3; k++ {
+		l, err := net.Listen("tcp", "127.0.0.1:0")
+		must(err)
+		listeners = append(listeners, l)
+		defer l.Close()
+		go func(k int, l net.Listener) {
+			for {
+				cn, err := l.Accept()
+				if err != nil {
+					return
+				}
+				go func(cn net.Conn) {
+					defer cn.Close()
+					cn.SetReadDeadline(time.Now().Add(3 * time.Second))
+					_, ft, data, err := session.ReadFrameFromReader(cn)
+					if err != nil {
+						hits <- fwdHit{listener: k, tunnel: "", from: "read: " + err.Error()}
+						return
+					}
+					tid, from, _ := session.DecodeTargetReadyMessage(data)
+					_ = ft
+					hits <- fwdHit{listener: k, tunnel: tid, from: from}
+					cn.SetReadDeadline(time.Time{})
+					io.Copy(io.Discard, cn)
+				}(cn)
+			}
+		}(k, l)
+	}
+	smB := session.NewSessionManager(idgen.NewIDManager(memory.New(ctxB), ctxB), ctxB)
+	smB.SetNodeID("node-b")
+	smB.SetTunnelRoutingTable(w.tables[1])
+	mgr := session.NewTunnelConnectionManager(w.tables[1].GetNodeAddress, session.DefaultTunnelConnectionManagerConfig())
+	defer mgr.Close()
+	if c.Way == "legacypool" {
+		// the compatibility fallback of forwardToSourceNode (no TunnelConnectionManager installed): reported, not judged -
+		// the server always installs the TunnelConnectionManager (components_session.go)
+		smB.SetCrossNodePool(session.NewCrossNodePool(ctxB, w.stores[1], "node-b", session.DefaultCrossNodePoolConfig()))
+	} else {
+		smB.SetTunnelConnectionManager(mgr)
+	}
+
+	cur, curFF := -1, time.Duration(0) // the listener registered for node-a, backend time since that registration
+	var curT0 time.Time
+	nfwd := 0
+	for i, o := range c.Ops {
+		switch o.Op {
+		case "addr":
+			rt := w.tables[o.N%2]
+			must(rt.RegisterNodeAddress("node-a", listeners[o.K%3].Addr().String()))
+			cur, curFF, curT0 = o.K%3, 0, time.Now()
+			out.Events = append(out.Events, fmt.Sprintf("node-a registers address #%d", cur))
+		case "ff":
+			d := time.Duration(o.D) * time.Millisecond
+			w.advance(d)
+			curFF += d
+			out.Events = append(out.Events, fmt.Sprintf("%v of backend time pass", d))
+		case "fwd":
+			nfwd++
+			tid := fmt.Sprintf("fwd-%d", nfwd)
+			must(w.tables[0].RegisterWaitingTunnel(bg, &tunnel.WaitingState{TunnelID: tid, MappingID: "m", SourceNodeID: "node-a", TargetClientID: 7}))
+			srv, cli := net.Pipe()
+			go io.Copy(io.Discard, cli) // the target client reads the TunnelOpenAck and whatever follows
+			conn, err := smB.CreateConnection(srv, srv)
+			must(err)
+			ferr := session.VerifHandleCrossNodeTarget(smB, tid, "m", conn, srv)
+			got := -1
+			var hit fwdHit
+			select {
+			case hit = <-hits:
+				got = hit.listener
+			case <-time.After(700 * time.Millisecond):
+			}
+			want := cur
+			ttl := tunnel.NodeAddressTTL
+			elapsed := curFF
+			if !w.virtual {
+				elapsed += time.Since(curT0)
+			}
+			if cur >= 0 && !w.never && elapsed > ttl {
+				want = -1
+			}
+			out.Dials = append(out.Dials, got)
+			out.Want = append(out.Want, want)
+			out.Judged++
+			out.Events = append(out.Events, fmt.Sprintf("tunnel %s forwarded: dialled #%d, registered #%d (%v)", tid, got, want, ferr))
+			switch {
+			case got >= 0 && hit.tunnel != tid:
+				fail(i, "forward-wrong-tunnel", fmt.Sprintf("op #%d on %s: listener #%d received %q/%q for the forward of %s", i, c.Backend, got, hit.tunnel, hit.from, tid))
+			case got != want && want >= 0 && got >= 0:
+				fail(i, "forward-dials-stale-node-address", fmt.Sprintf("op #%d on %s: tunnel %s waits on node-a whose registered address is listener #%d (%s); the target node dialled listener #%d (%s), an address node-a had earlier (history: %s)", i, c.Backend, tid, want, listeners[want].Addr(), got, listeners[got].Addr(), strings.Join(out.Events, "; ")))
+			case want >= 0 && got < 0:
+				fail(i, "forward-lost", fmt.Sprintf("op #%d on %s: tunnel %s waits on node-a (address #%d registered) but the forward reached no listener: %v", i, c.Backend, tid, want, ferr))
+			case want < 0 && got >= 0:
+				fail(i, "forward-dials-unregistered-address", fmt.Sprintf("op #%d on %s: no unexpired address is registered for node-a, yet tunnel %s was dialled at listener #%d", i, c.Backend, tid, got))
+			}
+			mgr.CloseTunnel(tid)
+			cli.Close()
+			srv.Close()
+			_ = w.tables[0].RemoveWaitingTunnel(bg, tid)
+		default:
+			panic("forward: unknown op " + o.Op)
+		}
+	}
+	return out
+}
+
+// ---------------------------------------------------------------------------------------------
 // probes (reported, never judged): aliasing of the caller's struct, the map[string]interface{} decode path
 // ---------------------------------------------------------------------------------------------
 
@@ -1483,6 +1678,8 @@ func main() {
 				results[i] = runProbe(c)
 			} else if c.Stream == "bridge" {
 				results[i] = runBridge(c)
+			} else if c.Stream == "forward" {
+				results[i] = runForward(c)
 			} else if c.Stream == "conc" {
 				results[i] = runConc(c)
 			} else if c.Stream == "sweep" {
